@@ -37,17 +37,47 @@ from placement import util                              # noqa: E402
 
 
 class Placement(object):
-    def __init__(self, randomize=False, policy_rules=None):
+    def __init__(self, randomize=False, policy_rules=None, file_db=False):
         self.randomize = randomize
         self.policy_rules = policy_rules
         self._tmp = None
+        # file_db: an SQLite file with one connection per session instead of
+        # the shared in-memory connection (StaticPool), on which an
+        # independent transaction shares -- and ends -- the transaction state
+        # of the surrounding request
+        self.file_db = file_db
+        self._dbdir = None
 
     def __enter__(self):
         self.cf = config_fixture.Config(cfg.ConfigOpts())
         self.cf.setUp()
         placement_conf.register_opts(self.cf.conf)
         self.cf.config(group='api', auth_strategy='noauth2')
-        self.db = placement_fixtures.Database(self.cf, set_config=True)
+        if self.file_db:
+            import tempfile
+            from oslo_db.sqlalchemy import test_fixtures
+            self._dbdir = tempfile.mkdtemp(prefix='pyvc_db.')
+            url = 'sqlite:///%s/placement.db' % self._dbdir
+
+            class _FileDatabase(placement_fixtures.Database):
+                def __init__(self_, conf_fixture, set_config=False):
+                    test_fixtures.AdHocDbFixture.__init__(self_, url=url)
+                    if set_config:
+                        try:
+                            conf_fixture.register_opt(
+                                cfg.StrOpt('connection'),
+                                group='placement_database')
+                        except cfg.DuplicateOptError:
+                            pass
+                        conf_fixture.config(connection=url,
+                                            group='placement_database')
+                    self_.conf_fixture = conf_fixture
+                    from placement import db_api as placement_db
+                    self_.get_engine = placement_db.get_placement_engine
+                    placement_db.configure(self_.conf_fixture.conf)
+            self.db = _FileDatabase(self.cf, set_config=True)
+        else:
+            self.db = placement_fixtures.Database(self.cf, set_config=True)
         self.db.setUp()
         self.cf.conf([], default_config_files=[])
         pf = paths.state_path_def('etc/placement/policy.yaml')
@@ -82,8 +112,13 @@ class Placement(object):
         if self._tmp is not None:
             os.unlink(self._tmp.name)
         policy.reset()
-        self.db.cleanUp()
-        self.cf.cleanUp()
+        try:
+            self.db.cleanUp()
+        finally:
+            self.cf.cleanUp()
+            if self._dbdir is not None:
+                import shutil
+                shutil.rmtree(self._dbdir, ignore_errors=True)
 
     def req(self, method, path, body=None, version=None, token='admin',
             roles=None, headers=None, raw_body=None, accept='application/json',
